@@ -202,7 +202,7 @@ func runTask(bin string, t *task, race bool) {
 	c := exec.Command(bin, args...)
 	c.Env = append(os.Environ(), "GOMAXPROCS=1")
 	if race {
-		c.Env = append(os.Environ(), "GOMAXPROCS=2", "GORACE=halt_on_error=0 log_path="+t.raceLog)
+		c.Env = append(os.Environ(), "GOMAXPROCS=2", "GORACE=halt_on_error=0 exitcode=0 log_path="+t.raceLog)
 		c.Env = append(c.Env, "VRT_RACELOG="+t.raceLog)
 	}
 	b, err := c.CombinedOutput()
@@ -307,7 +307,7 @@ func replay(path string) int {
 	c.Env = append(os.Environ(), "GOMAXPROCS=1")
 	if rf.Race {
 		lp := filepath.Join(scratch, "race")
-		c.Env = append(os.Environ(), "GOMAXPROCS=2", "GORACE=halt_on_error=0 log_path="+lp, "VRT_RACELOG="+lp)
+		c.Env = append(os.Environ(), "GOMAXPROCS=2", "GORACE=halt_on_error=0 exitcode=0 log_path="+lp, "VRT_RACELOG="+lp)
 	}
 	c.Stdout, c.Stderr = os.Stdout, os.Stderr
 	if err := c.Run(); err != nil {
@@ -618,12 +618,16 @@ func check(prop, tier string) int {
 		os.WriteFile(rp, b, 0o644)
 		okc := 0
 		var lastOut string
-		for k := 0; k < 2; k++ {
+		tries := 2
+		if race {
+			tries = 6 // the detector's shadow history is finite: a real race may go unreported in a given run
+		}
+		for k := 0; k < tries && okc < 2; k++ {
 			c := exec.Command(bin, "-replay", rp)
 			c.Env = append(os.Environ(), "GOMAXPROCS=1")
 			if race {
 				lp := filepath.Join(scratch, fmt.Sprintf("rr%d_%d", i, k))
-				c.Env = append(os.Environ(), "GOMAXPROCS=2", "GORACE=halt_on_error=0 log_path="+lp, "VRT_RACELOG="+lp)
+				c.Env = append(os.Environ(), "GOMAXPROCS=2", "GORACE=halt_on_error=0 exitcode=0 log_path="+lp, "VRT_RACELOG="+lp)
 			}
 			out, _ := c.CombinedOutput()
 			lastOut = string(out)
@@ -631,7 +635,7 @@ func check(prop, tier string) int {
 				okc++
 			}
 		}
-		if okc != 2 {
+		if okc != 2 && !(race && okc >= 1) {
 			fmt.Printf("ERROR violation %s in %s did not reproduce deterministically from its schedule (%d/2)\n%s\n", r.sig, r.a.scn, okc, tail(lastOut, 2000))
 			return 2
 		}
